@@ -37,7 +37,7 @@ TInit == /\ l = 1 /\ inv = NoInv /\ on = FALSE /\ res = [checked |-> 0, steps |-
 
 RootSeq(gg) == LET RECURSIVE R(_) R(i) == IF i > Len(gg.stmts) THEN <<>> ELSE SelectSeq(gg.stmts[i].outs \o gg.stmts[i].iouts, LAMBDA o : o \in RootOuts(gg)) \o R(i + 1) IN R(1)
 FnOf(q, key) == [x \in {q[i][key] : i \in DOMAIN q} |-> q[CHOOSE i \in DOMAIN q : q[i][key] = x]]
-Dyn(gg) == \E i \in DOMAIN gg.stmts : gg.stmts[i].dd # "" \/ "hsel" \in DOMAIN gg.stmts[i]    \* (header-switch statements are Ref-level only)
+Dyn(gg) == \E i \in DOMAIN gg.stmts : gg.stmts[i].dd # "" \/ "hsel" \in DOMAIN gg.stmts[i] \/ "split" \in DOMAIN gg.stmts[i]    \* (header-switch statements are Ref-level only)
 Bad(what, detail) == IF Cardinality(res.bad) >= 20 THEN res.bad ELSE res.bad \cup {[l |-> l, what |-> what, detail |-> detail]}
 
 \* the model finishes the phony statements the loop takes from the queue before the next command: with Prio, while the
